@@ -252,10 +252,30 @@ static size_t fill_vals(int kind) {
             VALS[n] = n * 2;
         }
         break;
+    case 9: /* ascending small values with one duplicate: must NOT end up in the set-based encoding */
+        for (n = 0; n < 50; n++) {
+            VALS[n] = n;
+        }
+        VALS[10] = 9;
+        break;
+    case 10: /* range exactly 0xFF: the in-range maximum collides with the 1-byte PFOR marker */
+        for (n = 0; n < 200; n++) {
+            VALS[n] = 5000 + (n * 37) % 256;
+        }
+        VALS[150] = 5255;
+        VALS[3] = 5000;
+        break;
+    case 11: /* range exactly 0xFFFF */
+        for (n = 0; n < 300; n++) {
+            VALS[n] = 70000 + (n * 211) % 65536;
+        }
+        VALS[7] = 70000;
+        VALS[200] = 70000 + 65535;
+        break;
     }
     return n;
 }
-static const char *VALN[] = {"60 values over 5 distinct", "200 values over 40 distinct", "100 clustered values", "100 clustered values with 4 outliers", "300 strictly increasing small values", "300 sorted large values", "10500 pseudo-scattered values", "50 unsorted wide values", "5000 strictly increasing values"};
+static const char *VALN[] = {"60 values over 5 distinct", "200 values over 40 distinct", "100 clustered values", "100 clustered values with 4 outliers", "300 strictly increasing small values", "300 sorted large values", "10500 pseudo-scattered values", "50 unsorted wide values", "5000 strictly increasing values", "ascending 0..49 with one duplicate", "200 values with range exactly 0xFF", "300 values with range exactly 0xFFFF"};
 
 static int same_u64(const uint64_t *a, const uint64_t *b, size_t n) { return memcmp(a, b, n * 8) == 0; }
 
@@ -698,9 +718,16 @@ static void build_scenarios(void) {
     add_sc("float.Decode", 2, 1, 1, 0);
     add_sc("adaptive.CountUnique/Analyze", 3, 0, 0, 0);
     add_sc("adaptive.CountUnique/Analyze", 3, 0, 6, 0);
-    for (int vk = 0; vk <= 8; vk++) {
+    for (int vk = 0; vk <= 11; vk++) {
         add_sc("adaptive.Encode", 3, 1, vk, 0);
     }
+    add_sc("PFOR.Encode", 1, 1, 10, 0);
+    add_sc("PFOR.Encode", 1, 1, 11, 0);
+    add_sc("PFOR.ComputeThreshold", 1, 0, 10, 0);
+    add_sc("adaptive.EncodeWith[2]", 3, 12, 10, 0);
+    add_sc("adaptive.EncodeWith[2]", 3, 12, 11, 0);
+    add_sc("adaptive.EncodeWith[0]", 3, 10, 9, 0);
+    add_sc("adaptive.EncodeWith[5]", 3, 15, 9, 0);
     static const int forced_vals[6][3] = {{5, 2, -1}, {2, 0, -1}, {3, 2, -1}, {0, 1, -1}, {4, 8, -1}, {7, 0, -1}};
     for (int t = 0; t < 6; t++) {
         for (int j = 0; j < 3 && forced_vals[t][j] >= 0; j++) {
